@@ -187,7 +187,11 @@ def pipeline(I, ir, kinds, chars, order, multi, rchars=None):
     if multi:
         # crate b defines every name that can be imported
         fb = [mk_file(I, ir, "S", 10 + j, ord(ch), "b", "b.ts", True) for j, ch in enumerate(ALPHA[:nalpha(len(kinds))])]
-        files = files + fb
+        # the walker delivers the files of the two crates interleaved (a, b, a, b, ..): the collector must merge per crate whatever the order
+        mixed = []
+        for j in range(max(len(files), len(fb))):
+            mixed += files[j:j + 1] + fb[j:j + 1]
+        files = mixed
     m = collect(I, files)
     cell = [m]
     I.call_static("reconcile::reconcile_aliases", [Ref(cell, 0)])
